@@ -135,11 +135,20 @@ func init() {
 func init() {
 	g2lUnits = append(g2lUnits, &g2lUnit{
 		out: "FnModfile", ns: "Modfile", pkgDir: "modfile",
-		imports: []string{"ModVerif.Basic.GoRtUtf8", "ModVerif.Basic.GoRtStrings"},
-		fns:     []string{"isIdent", "IsDirectoryPath", "MustQuote", "AutoQuote", "parseString", "ModulePath"},
-		inout:   map[string]string{"parseString": "s"},
+		imports:     []string{"ModVerif.Basic.GoRtUtf8", "ModVerif.Basic.GoRtStrings", "ModVerif.Generated.FnSemver", "ModVerif.Generated.FnModule"},
+		structNames: []string{"Position", "Comment", "Comments", "Line", "VersionInterval"},
+		fns: []string{"isIdent", "IsDirectoryPath", "MustQuote", "AutoQuote", "parseString", "ModulePath",
+			"lineLess", "lineExcludeLess", "lineRetractLess", "checkCanonicalVersion"},
+		inout:    map[string]string{"parseString": "s"},
 		absFuncs: map[string]string{"unicode.IsPrint": "isPrint", "unicode.IsSpace": "isSpace", "strconv.Quote": "quote", "strconv.Unquote": "unquote"},
-		absSigs: map[string]string{"isPrint": "Int → Bool", "isSpace": "Int → Bool", "quote": "Bytes → Bytes", "unquote": "Bytes → (Bytes × Option String)"},
+		absSigs:  map[string]string{"isPrint": "Int → Bool", "isSpace": "Int → Bool", "quote": "Bytes → Bytes", "unquote": "Bytes → (Bytes × Option String)"},
+		externs: map[string]string{"semver.Compare": "ModVerif.Generated.Semver.Compare", "semver.Major": "ModVerif.Generated.Semver.Major",
+			"module.SplitPathVersion": "ModVerif.Generated.Module.SplitPathVersion", "module.CanonicalVersion": "ModVerif.Generated.Module.CanonicalVersion",
+			"module.PathMajorPrefix": "ModVerif.Generated.Module.PathMajorPrefix", "module.CheckPathMajor": "ModVerif.Generated.Module.CheckPathMajor"},
+		externFx: map[string]bool{"semver.Compare": true, "semver.Major": true, "module.SplitPathVersion": true, "module.CanonicalVersion": true,
+			"module.PathMajorPrefix": true, "module.CheckPathMajor": true},
+		externFue: map[string]bool{"semver.Compare": true, "semver.Major": true, "module.SplitPathVersion": true, "module.CanonicalVersion": true,
+			"module.PathMajorPrefix": true, "module.CheckPathMajor": true},
 	})
 }
 
